@@ -198,6 +198,9 @@ def run_federated_experiment(
     start_round_num = 1
   client_sampler.set_round_num(start_round_num)
 
+  # Last completed round, also when no round is left to run (e.g. when resuming
+  # from a checkpoint of the final round).
+  round_num = start_round_num - 1
   start = time.time()
   for round_num in range(start_round_num, config.num_rounds + 1):
     # Get a random state and randomly sample clients.
